@@ -359,7 +359,7 @@ class HierDriver(explore.Driver):
             parts.append(tuple(sorted((k, np.asarray(v).tobytes())
                                       for k, v in ut.items())))
         except AttributeError:
-            parts = [id(st)]
+            parts = [explore.unique_token()]
         return (tuple(parts), st.fps, st.synced,
                 tuple(st.window), tuple(tuple(sorted(e)) for e in st.excl))
 
